@@ -425,7 +425,9 @@ def st_cases():
     dialect = st.one_of(st.none(), st.fixed_dictionaries({
         "drop": st.lists(st.sampled_from(["label_entity_id", "auth_atom_id", "auth_comp_id", "pdbx_PDB_ins_code", "label_alt_id", "pdbx_PDB_model_num",
                                           "type_symbol", "pdbx_formal_charge"]), max_size=4, unique=True),
-        "order": st.one_of(st.none(), st.integers(0, 10 ** 6)), "label_alias": st.booleans()}))
+        "order": st.one_of(st.none(), st.integers(0, 10 ** 6)), "label_alias": st.booleans(),
+        # numbers spelt as the CIF grammar allows besides fixed point (1.2345e+01, 1.2345E1, +12.345, 12.34500)
+        "numbers": st.sampled_from([None, None, 0, 1, 3])}))
     return st.fixed_dictionaries({"atoms": atomtab.st_tables(max_residues=4, max_atoms=6, shared_positions=True), "null": st.sampled_from(["?", "."]), "dialect": dialect,
                                   "model_numbers": MODEL_NUMBERS})
 
